@@ -121,6 +121,7 @@ def run(rep):
     # eval() must leave the interpreter in the same environment as the step route does (which C11 decides for step):
     # on every return path of eval - Ok or Err - the caller's environment is current again
     check_roles(rep)
+    check_request_lists(rep, cross)
     from . import c11
     c11.check_env_restoring_functions(rep, cross, specs=[('Interpreter', 'eval', False)], pid='C19')
     rep.cross = driver.cross_check(cross, 300, 'ALL', rep.tier, rep.seed)
@@ -144,6 +145,86 @@ PROGRAMS = [
 
 COUNTER = 'let n = 0; export function bump() { n = n + 1; return n } export { n as count }; export let plain = 1; export function touch() { plain = plain + 1 } export default "counter";'
 CONSUMER = 'import d, { bump, count, plain, touch } from "./counter"; bump(); bump(); touch(); [d, count, plain].join(":")'
+
+
+def check_request_lists(rep, cross):
+    """the three copies of the start-up sequence (prepare, eval, setup_vm_from_program) hand the host the SAME kind of request list: what
+    dedupe_import_requests returned (or, in setup_vm_from_program, what process_pending_modules collected, which is duplicate-free by
+    construction).  The fallback return of setup_vm_from_program after process_pending_modules (modules that are pending but cannot be
+    loaded: import cycles, where the list is empty) is outside."""
+    from . import ledger
+    for meth, allowed in (('prepare', {'deduped'}), ('eval', {'deduped'}), ('setup_vm_from_program', {'deduped', 'ppm'})):
+        ex = common.executor(unwind=3)
+        ex.auto_havoc = True
+
+        def mk(tag):
+            def h(e, s, c):
+                k = sum(1 for x in s.events if x[0] == 'listsrc')
+                s.event('listsrc', tag)
+                n = z3.BitVec('%s_len_%d' % (tag, k), 64)
+                s.assume(z3.ULE(n, 1 << 20))
+                e.havoc_used.add('Interpreter::%s (returns a tagged abstract list)' % c.norm.split('::')[-1])
+                return e.ret(s, c, AbsVec(n, '%s#%d' % (tag, k), 'ImportRequest'))
+            return h
+        ex.overrides.append((re.compile(r'^Interpreter::dedupe_import_requests$'), mk('deduped')))
+        ex.overrides.append((re.compile(r'^Interpreter::filter_missing_imports$'), mk('missing')))
+        ex.overrides.append((re.compile(r'^Interpreter::filter_unprovided_imports$'), mk('unprovided')))
+        ex.overrides.append((re.compile(r'^Interpreter::collect_import_requests_internal$'), mk('collected')))
+
+        def ppm(e, s, c):
+            s.event('listsrc', 'ppm')
+            n = z3.BitVec('ppm_len', 64)
+            s.assume(z3.ULE(n, 1 << 20))
+            return e.ret(s, c, EnumV('Result', z3.BitVec('ppm_res', 64), {0: {0: AbsVec(n, 'ppm#0', 'ImportRequest')}, 1: {0: Opaque('JsError')}}))
+        ex.overrides.append((re.compile(r'^Interpreter::process_pending_modules$'), ppm))
+        try:
+            fn = common.fn_name(ex, 'Interpreter', meth)
+        except driver.Inconclusive as err:
+            rep.inconc(str(err))
+            continue
+        f = ex.mir.get(fn)
+        st = State()
+        st.assume(z3.ULT(z3.BitVec('ppm_res', 64), 2))
+        a = st.alloc(Agg('struct', 'Interpreter', {}, lazy=True))
+        args = [Ref(a)] + [ex.fresh(st, t, '$a%d' % i) for i, (n_, t) in enumerate(f.args) if i > 0]
+        ex.call_function(st, fn, args)
+        ends = ex.run(st, max_paths=20000)
+        vs = ex.enum_variants('StepResult')
+        n_need = 0
+        bad = None
+        for e in ends:
+            if e.status in ('bound', 'panic'):
+                continue
+            if e.status != 'return':
+                rep.inconc('%s: %s %s' % (meth, e.status, e.detail[:140]))
+                continue
+            v = e.value
+            if not (isinstance(v, EnumV) and v.discr == 0):
+                continue
+            sr = v.payload[0][0]
+            if not (isinstance(sr.discr, int) and vs[sr.discr] == 'NeedImports'):
+                continue
+            lst = sr.payload[sr.discr][0]
+            tag = str(getattr(lst, 'tok', '?')).split('#')[0]
+            srcs = [x[1] for x in e.st.events if x[0] == 'listsrc']
+            if meth == 'setup_vm_from_program' and tag == 'unprovided' and 'ppm' in srcs:
+                continue          # the fallback after process_pending_modules (outside, see docstring)
+            n_need += 1
+            if tag not in allowed and bad is None:
+                bad = tag
+        what = 'Interpreter::%s: the request list handed to the host went through dedupe_import_requests' % meth
+        rep.obligation(what, 'sat' if bad else 'unsat', '%d NeedImports return paths' % n_need, 0.0)
+        if bad and not rep.seen('C19/%s/request-list-not-deduplicated' % meth):
+            outs = driver.replay([{'cmd': 'eval_vs_step', 'src': PROGRAMS[7]}])
+            rep.validated += 1
+            p = rep.write_replay('request-list-%s' % meth, {'function': meth, 'list_comes_from': bad, 'observed': outs[0]})
+            rep.violation('C19/%s/request-list-not-deduplicated' % meth, '%s returns NeedImports with the list of %s, not the deduplicated one; %r: eval %r, prepare %r' % (
+                meth, bad, PROGRAMS[7], outs[0].get('eval'), outs[0].get('step')), p)
+        if n_need == 0:
+            rep.inconc('%s: no path returns NeedImports (vacuity)' % meth)
+        rep.vacuity.append('%s: %d NeedImports paths' % (meth, n_need))
+        rep.sample({'kernel': '%s request list' % meth, 'need_imports_paths': n_need})
+        rep.absorb(ex)
 
 
 def check_roles(rep):
